@@ -73,8 +73,8 @@ PROPS = {
         "PARTIAL. The model's evaluator is stateless: the result after any history equals the fresh result; Expression() is the creation string. That the Go code never writes to the caller's datum is true by construction in a functional model and therefore tied at run time only (serialise before/after every call)",
         [MODEL_NOTE, "absence of writes to caller memory is observed, not proved"]),
     "C14": P("P_C14.v", ["C14"], T_API,
-        "map iteration order is an adversarial permutation of the entry list: sort_keys is permutation-invariant, evaluation is invariant under permutation of string-keyed duplicate-free maps anywhere in the datum, filter results are permutation-related; the implementation is called repeatedly under Go's randomised iteration",
-        [MODEL_NOTE, "maps with non-string keys inside evaluated data: order-freeness not proved (they cannot be quantified over)"]),
+        "map iteration order is an adversarial permutation of the entry list: sort_keys is permutation-invariant, evaluation is invariant under permutation of duplicate-free maps - string-keyed (which quantifiers visit in sorted key order) and with any other key type (indexed and tested for membership only) - anywhere in the datum, in any number of places; filter results are permutation-related; the implementation is called repeatedly under Go's randomised iteration",
+        [MODEL_NOTE, "hook-free configurations; the entry lists are duplicate-free under the lookup's key comparison (a Go map cannot hold two equal keys; NaN keys, which are never equal to anything, are allowed)"]),
     "C16": P("P_C16.v", ["C16"], T_PARSER + T_EVAL,
         "the rendering relation RF (all layouts, redundant parentheses, precedence, every match operator, quantifiers with four binding forms, selector spellings, quoted/raw/bare/integer literals) is read back by the parser as the tree, for trees of unbounded depth; Unquote(quote_double s) = s and the Parse-level literal fidelity theorem hold for EVERY byte string; not-not folding",
         [MODEL_NOTE, "side conditions of the proved family (stated in the records the theorem ranges over): a bare name at the head of an expression is not the keyword `not`, the name of a quantified selector is none of `contains not matches is in`, a double-quoted literal of the operator grid does not begin with `/` (the D9 family is c16_literal_fidelity_all's)"]),
